@@ -8,6 +8,13 @@
                                          1 did not return | 2 schedule exhausted; inside an invocation
                                          record the operator's screen is written (0 r), r = the index of
                                          the screen file that invocation was given (in fs' it stays (0))
+     (5 (i j) pdir)                   -> validate_initial of the job directory ((i j), pdir):
+                                         (0 ()) None | (0 ((test training meta))) the dict | (1 why) raised | (2 why i j) named
+     (6 (word ...))                   -> parse_known_args orch_options on the command line (a word = its code points):
+                                         (0 ((dest value) ...) (remaining word ...)) with value = (0 str) | (1 int) | (2) None;
+                                         (1 why) argparse error (64) / spelling the model does not represent (90)
+     (7 (component ...))              -> the five path helpers for a script whose resolved file is /c1/c2/...: (script_location
+                                         nextflow_dir base_config repository_root main_nf_file), each a list of components
    Encodings: kind = 0..6 (training test thetas dist selected advanced meta);
    spath = (0) | (1 i j kind); launch = (0 sp) | (1 sp sp) | (2 sp) | (3 sp (i j) excl);
    pdir = (training? test thetas dist selected? advanced? meta? by?);
@@ -146,6 +153,37 @@ Definition run_c19 (orc : oracle) (s : sexp) : sexp :=
   | SL [SZ 3; f] =>
       match as_fs f with
       | Some f => of_steps (completed f)
+      | None => bad_input
+      end
+  | SL [SZ 5; st; d] =>
+      match as_step st, as_pdir d with
+      | Some st, Some d =>
+          match validate_initial (st, d) with
+          | SOk None => SL [SZ 0; SL []]
+          | SOk (Some r) => SL [SZ 0; SL [SL [of_spath (if_test r); of_spath (if_training r); SZ (if_meta r)]]]
+          | SRaised _ w => SL [SZ 1; SZ w]
+          | SNamed w s => SL [SZ 2; SZ w; SZ (fst s); SZ (snd s)]
+          end
+      | _, _ => bad_input
+      end
+  | SL [SZ 6; ws] =>
+      match as_listof as_Zs ws with
+      | Some ws =>
+          match parse_known_args orch_options ws with
+          | SOk (ns, extra) =>
+              SL [SZ 0;
+                  of_list (fun kv : str * nsval =>
+                             SL [of_Zs (fst kv);
+                                 match snd kv with VStr x => SL [SZ 0; of_Zs x] | VInt z => SL [SZ 1; SZ z] | VNone => SL [SZ 2] end]) ns;
+                  of_list of_Zs extra]
+          | SRaised _ w => SL [SZ 1; SZ w]
+          | SNamed w st => SL [SZ 2; SZ w; SZ (fst st); SZ (snd st)]
+          end
+      | None => bad_input
+      end
+  | SL [SZ 7; f] =>
+      match as_listof as_Zs f with
+      | Some f => SL (map (of_list of_Zs) [script_location f; nextflow_dir f; base_config f; repository_root f; main_nf_file f])
       | None => bad_input
       end
   | _ => bad_input
